@@ -278,3 +278,24 @@ fn c06_many_distinct_keys_on_one_path_are_all_reported() {
     }
     run_cases("c06_many_keys", cases);
 }
+
+/// literal keys NEAR the hashes the tool recognises (keccak256(n) for small n): one to 33 above, one below, the byte-swapped
+/// hash, the hash of the hash — none of them is the recognised hash itself, so each is an ordinary literal key and must be
+/// reported at exactly that index
+#[test]
+fn c06_literal_keys_near_recognised_hashes_are_reported() {
+    let mut cases = vec![];
+    for n in [0u64, 1, 3, 5, 9999] {
+        let h = keccak(&U256::from(n).to_be_bytes());
+        let mut near: Vec<(String, U256)> = vec![];
+        for k in [1u64, 2, 5, 31, 32, 33] { near.push((format!("keccak({n}) + {k}"), h.wrapping_add(U256::from(k)))); }
+        near.push((format!("keccak({n}) - 1"), h.wrapping_sub(U256::ONE)));
+        near.push((format!("byte-swapped keccak({n})"), U256::from_le_bytes(h.to_be_bytes())));
+        near.push((format!("keccak(keccak({n}))"), keccak(&h.to_be_bytes())));
+        for (what, k) in near {
+            cases.push(Case { ob: "slots.near_recognised_hash", what: format!("sload({what}) dropped"), code: read_only(k, false), must: vec![k] });
+            cases.push(Case { ob: "slots.near_recognised_hash", what: format!("sstore({what}, caller)"), code: { let mut c = vec![0x33]; p32(&mut c, k); c.extend([0x55, 0x00]); c }, must: vec![k] });
+        }
+    }
+    run_cases("c06_near_hashes", cases);
+}
